@@ -364,6 +364,8 @@ def check_chunks(ctx, prog, m):
     # variables read in the loop: members, per-iteration locals, c
     inner = set(v['id'] for s_ in ir.walk_stmts(loop['body']) if s_.get('k') == 'decl' for v in s_['vars'])
     inner.add(loop['cv']['id'])
+    # condition variables of statements inside the loop (`if (char x = f(c))`) are per-iteration locals as well
+    inner |= set(s_['cv']['id'] for s_ in ir.walk_stmts(loop['body']) if s_.get('k') in ('if', 'while', 'for', 'switch') and s_.get('cv'))
     carried = []
     for e in ir.stmt_exprs(loop['body']):
         if e.get('k') == 'var' and e.get('vk') in ('local', 'slocal', 'param') and e.get('id') not in inner and e.get('id') != cursor['id']:
